@@ -248,3 +248,10 @@ package internal_planner
 //@   check fingerprint-follows-the-labels: result == nil ==> entry.Fingerprint == fingerprint(entry.Labels)
 //@   loop 1:
 //@     modifies everything
+
+// A line the json / logfmt stage cannot parse (malformed, or not an object) is one
+// line of the stream like any other: it is passed on and never ends the query with
+// an error - the SQL engine keeps such lines too.
+//@ func (*ParserPlanner).Process$1 [C09]
+//@   flag checks=-index,-assert
+//@   ensures never-fails-the-stream: result == nil
